@@ -169,7 +169,11 @@ func FormatNumber(value float64, picture string, format DecimalFormat) (string, 
 
 	var integerPart, fractionalPart, exponentPart string
 
-	value = round(value, vars.MaxFractionalSize)
+	// Note that makeNumberString rounds the exact value of the
+	// number to the required number of fractional digits. Don't
+	// round it in floating point first: multiplying by a power
+	// of ten can turn a number just below a tie into a tie (e.g.
+	// 8.413499999999999 with three fractional digits).
 	s := makeNumberString(value, vars.MaxFractionalSize, &format)
 	sint, sfrac := splitStringAtByte(s, '.')
 	if sint != "" {
